@@ -64,7 +64,9 @@ RULE = ("E2 (correspondence): the shared online generator of harness/e2.py drive
         "the owner is rerun and recycles), optional (an OPTIONAL step a mandatory one needs), envedit; for the shapes "
         "the engine model/Engine.v expresses (3/4 of them) the model (static engine with retarget, or the gated amend "
         "engine), evaluated inside Coq on the two worlds, must execute exactly the steps the director executed, skip "
-        "only steps the director skipped and change exactly the outputs that changed; the shapes of the graphs the "
+        "only steps the director skipped and change exactly the outputs that changed; with probability 0.15 a plan script "
+        "gets one more step that consumes an existing output (of an OPTIONAL step half of the time): re-planning that "
+        "changes declarations; the shapes of the graphs the "
         "cone rebuilds start from, of the edits and of the executed / skipped steps are counted (e3:cone:*)")
 TRUSTED_BASE = [
     "Coq 8.16.1 kernel; vm_compute in Examples, tie lemmas and in the correspondence evaluation; no native_compute",
